@@ -40,7 +40,27 @@ def units(tier):
                 lang='c', route='P', forbid_auto=False,
                 trusted=["std::vector<unsigned>::operator[] on an index below size() is the array access p_[i] (signature rewrite to pointers)"],
                 assumptions=["array lengths <= K (stated per run)"])
-    return [pred, ops_unit(tier)]
+    return [pred, get_unit(tier), ops_unit(tier)]
+
+def get_unit(tier):
+    K = 16 if tier == 'quick' else 32
+    piece = Piece(SP, r'RCP<const Basic> CSRMatrix::get\(unsigned i, unsigned j\) const', rules=[
+        R('RCP<const Basic> CSRMatrix::get(unsigned i, unsigned j) const',
+          'RCPBasic get(const unsigned *p_, const unsigned *j_, const RCPBasic *x_, unsigned row_, unsigned col_, unsigned i, unsigned j)\nCONTRACT_get', n=1,
+          why="signature-only rewrite to C: the data members the body reads (p_, j_, x_, row_, col_) become parameters; contract attached"),
+        R('while (row_start < row_end) {', 'while (row_start < row_end) INV_get {', n=1, why="loop contract injected after the pinned loop header")])
+    e = Entry('h_get', defines={'K': '%du' % K}, enforce='get', loop_contracts=True, solver='minisat', timeout=900, mem_gb=6,
+              bounds="unbounded row length (inductive loop invariant + decreases); array lengths capped at K=%d by the precondition" % K, extra=['--unsigned-overflow-check'])
+    e.nloops = 1
+    region = Piece(SP, r'^    unsigned k = p_\[i\];\n    unsigned row_end = p_\[i \+ 1\];', region_end=r'k = mid \+ 1;\s*\}\s*\}', rules=[
+        R('while (k < end) {', 'while (k < end) INV_setsearch {', n=1, why="loop contract injected after the pinned loop header")],
+        name='CSRMatrix::set — search region (first statement .. end of the while loop)')
+    e2 = Entry('h_setsearch', defines={'K': '%du' % K}, enforce='set_search', loop_contracts=True, solver='minisat', timeout=900, mem_gb=6,
+               bounds="unbounded row length (inductive loop invariant + decreases); array lengths capped at K=%d by the precondition" % K, extra=['--unsigned-overflow-check'])
+    e2.nloops = 1
+    return Unit('csr_get', 'C25', 'contracts/C25/csr_get.c', {'get.inc': [piece], 'setsearch.inc': [region]}, [e, e2], lang='c', route='P', forbid_auto=False,
+                trusted=["member function -> C function with the data members as parameters (signature-only rewrite); RCP<const Basic> is an opaque value id"],
+                assumptions=["array lengths <= K (stated per run); x_ entries are opaque ids (reference counting not modelled)"])
 
 CTOK = [R('std::vector<unsigned>', 'uvec', n='*', why="std::vector<unsigned> -> fixed-capacity stub with bound-asserting accessors and position iterators"),
         R('RCP<const Basic>', 'RCPBasic', n='*', why="RCP<const Basic> -> field element (prelude/field.h)"),
